@@ -1,34 +1,290 @@
 (* Correspondence entry point for C11 (CBOR round trip).
    request (built by harness/src/c11.rs from a history):
-     (sections bytes)
+     (sections bytes view)
    sections = what the ORIGINAL store answered, one entry per observation section (a digest when
-              the reloaded store answered the same, the full vector otherwise) followed by the
-              flag 1 for "a second save/load generation answers the same";
-   bytes    = the file written by save().
+              the reloaded store answered the same, the full vector otherwise), then the flag 1
+              for "a second save/load generation answers the same" and the flag 1 for "the
+              second generation's file equals the first up to the order of map entries";
+   bytes    = the file written by save();
+   view     = the index dump of the ORIGINAL store taken through the public API (items by
+              handle, ids, texts, text selections, every reverse index row, id maps, position
+              index), see [store_view].
    sub-cases:
-     one per section   spec = model = the original's answer: by C11_roundtrip the loaded store is
-                       the saved one up to the erased transient flags, which no section observes;
+     one per section   spec = model = the original's answer: by C11_store_roundtrip the loaded
+                       store is the saved one up to the erased transient flags, which no section
+                       observes;
      save/load status  (1 1);
      file bytes        model = bytes_of_toks (enc (dec (toks_of_bytes file))) under the schema
                        extracted from the source; spec = the file itself;
-     well-formedness   the file is exactly one well-formed CBOR data item. *)
-From Coq Require Import String.
+     well-formedness   the file is exactly one well-formed CBOR data item;
+     index dump        model = [store_view] of the value the MODEL decodes from the file,
+                       spec = the dump of the original store, impl = the dump of the reloaded
+                       store: the indices in the file are the ones the original answered with,
+                       and the ones the reloaded store answers with. *)
+From Coq Require Import String Ascii.
 From Coq Require Import List ZArith NArith Bool Arith.
 Import ListNotations.
 From Stam Require Import Base.Sx Model.Cbor Spec.CborSpec Gen.CborSchema.
 
 Definition bytes_of_sx (x : sx) : list N := map sx_N (sx_list x).
 
+(* ------------------------------------------------------------------ *)
+(* reading a decoded store value by field NAME (positions and indices come from the schema) *)
+Section View.
+Variable Sc : schema.
+
+Definition tv : Type := (ty * value)%type.
+Definition nothing : tv := (TP PUnit, VU).
+
+Fixpoint find_named (fname : ident) (p : nat) (fs : list field) : option (nat * field) :=
+  match fs with
+  | [] => None
+  | f :: r => if ident_eqb (f_name f) fname then Some (p, f) else find_named fname (S p) r
+  end.
+
+(* field [fname] of a struct value; transparent structs are looked through by [untr] *)
+Definition getf (x : tv) (fname : ident) : tv :=
+  match x with
+  | (TRef it, VRec l) =>
+      match lookup Sc it with
+      | Some (IStruct _ fs) =>
+          match find_named fname 0 fs with
+          | Some (p, f) =>
+              (match fkind_of f with FK_ty t => t | _ => f_ty f end, nth p l VU)
+          | None => nothing
+          end
+      | _ => nothing
+      end
+  | _ => nothing
+  end.
+
+(* look through a transparent struct *)
+Definition untr (x : tv) : tv :=
+  match x with
+  | (TRef it, VRec [v]) =>
+      match lookup Sc it with
+      | Some (IStruct true [f]) => (match fkind_of f with FK_ty t => t | _ => f_ty f end, v)
+      | _ => x
+      end
+  | _ => x
+  end.
+
+Definition elems (x : tv) : list tv :=
+  match untr x with
+  | (TVec t, VSeq l) => map (fun v => (t, v)) l
+  | (TTup ts, VSeq l) => combine ts l
+  | _ => []
+  end.
+Definition entries (x : tv) : list (tv * tv) :=
+  match untr x with
+  | (TMapT kt vt, VMapv l) =>
+      flat_map (fun e => match e with VPair k v => [((kt, k), (vt, v))] | _ => [] end) l
+  | _ => []
+  end.
+Definition unopt (x : tv) : option tv :=
+  match x with
+  | (TOpt t, VSome v) => Some (t, v)
+  | _ => None
+  end.
+(* the number inside a handle (transparent struct around an unsigned) or a plain unsigned *)
+Definition num (x : tv) : nat :=
+  match snd x with
+  | VRec [VN n] => N.to_nat n
+  | VN n => N.to_nat n
+  | _ => 0
+  end.
+Definition bytes (x : tv) : list N := match snd x with VS s => s | _ => [] end.
+Definition flag (x : tv) : bool := match snd x with VB b => b | _ => false end.
+
+Fixpoint bytes_eqb (a b : list N) {struct a} : bool :=
+  match a, b with
+  | [], [] => true
+  | x :: a', y :: b' => N.eqb x y && bytes_eqb a' b'
+  | _, _ => false
+  end.
+
+Fixpoint insert_nat (x : nat) (l : list nat) : list nat :=
+  match l with
+  | [] => [x]
+  | y :: r => if Nat.leb x y then x :: l else y :: insert_nat x r
+  end.
+Definition sort_nat (l : list nat) : list nat := fold_right insert_nat [] l.
+
+Definition live_at (slots : list tv) (h : nat) : bool :=
+  match nth_error slots h with
+  | Some s => match unopt s with Some _ => true | None => false end
+  | None => false
+  end.
+
+(* a row of handles, as the API shows it: handles of removed items are skipped, ascending *)
+Definition row (live : nat -> bool) (x : tv) : sx :=
+  of_nats (sort_nat (filter live (map num (elems x)))).
+Definition nth_row (rows : list tv) (h : nat) : tv := nth h rows nothing.
+Definition relmap_rows (m : tv) : list tv := elems (getf m (i_ "data")).
+(* [i_ "data"] is evaluated below by [Eval vm_compute] in every definition that is extracted *)
+
+Definition opt_bytes (x : tv) : sx :=
+  match unopt x with
+  | Some s => of_Ns (bytes s)
+  | None => A (-1)
+  end.
+
+(* a DataValue as (tag payload) *)
+Fixpoint value_sx_fuel (fuel : nat) (v : value) : sx :=
+  match fuel with
+  | 0 => A (-9)
+  | S fuel' =>
+      match v with
+      | VVar 0 _ => L [A 0]
+      | VVar 1 [VS s] => L [A 1; of_Ns s]
+      | VVar 2 [VB b] => L [A 2; of_bool b]
+      | VVar 3 [VZ z] => L [A 3; A z]
+      | VVar 4 [VF b] => L [A 4; of_N (N.div b 4294967296); of_N (N.modulo b 4294967296)]
+      | VVar 5 [VSeq l] => L (A 5 :: map (value_sx_fuel fuel') l)
+      | VVar 6 [VS s] => L [A 6; of_Ns s]
+      | _ => A (-8)
+      end
+  end.
+
+End View.
+
+Definition DEAD : sx := A (-2).
+
+(* the dump; the field names are character lists computed once *)
+Definition store_view (Sc : schema) (root : ty) (v : value) : sx :=
+  Eval cbv beta iota delta [i_ list_ascii_of_string relmap_rows] in
+  let g := getf Sc in
+  let elems := elems Sc in
+  let entries := entries Sc in
+  let row := row Sc in
+  let st : tv := (root, v) in
+  let anns := elems (g st (i_ "annotations")) in
+  let sets := elems (g st (i_ "annotationsets")) in
+  let ress := elems (g st (i_ "resources")) in
+  let live_a := live_at anns in
+  let aidmap := entries (g (g st (i_ "annotation_idmap")) (i_ "data")) in
+  let ridmap := entries (g (g st (i_ "resource_idmap")) (i_ "data")) in
+  let sidmap := entries (g (g st (i_ "dataset_idmap")) (i_ "data")) in
+  let resolve := fun (m : list (tv * tv)) (id : list N) =>
+    match find (fun e => bytes_eqb (bytes (fst e)) id) m with
+    | Some e => of_nat (num (snd e))
+    | None => A (-1)
+    end in
+  let id_res := fun (m : list (tv * tv)) (x : tv) =>
+    match unopt x with
+    | Some s => resolve m (bytes s)
+    | None => A (-1)
+    end in
+  let aamap := entries (g (g st (i_ "annotation_annotation_map")) (i_ "data")) in
+  let aarow := fun (h : nat) =>
+    match find (fun e => Nat.eqb (num (fst e)) h) aamap with
+    | Some e => row live_a (snd e)
+    | None => L []
+    end in
+  let trm := relmap_rows Sc (g st (i_ "textrelationmap")) in
+  let ddam := relmap_rows Sc (g st (i_ "dataset_data_annotation_map")) in
+  let ramm := relmap_rows Sc (g st (i_ "resource_annotation_metamap")) in
+  let damm := relmap_rows Sc (g st (i_ "dataset_annotation_metamap")) in
+  let kamm := relmap_rows Sc (g st (i_ "key_annotation_metamap")) in
+  let dtamm := relmap_rows Sc (g st (i_ "data_annotation_metamap")) in
+  L [ (* annotations *)
+      L (map (fun ih =>
+                match unopt (snd ih) with
+                | None => DEAD
+                | Some a =>
+                    L [ opt_bytes (g a (i_ "id"));
+                        id_res aidmap (g a (i_ "id"));
+                        L (map (fun p => of_nats (map num (elems p))) (elems (g a (i_ "data"))));
+                        aarow (fst ih) ]
+                end) (combine (seq 0 (length anns)) anns));
+      (* resources *)
+      L (map (fun ih =>
+                match unopt (snd ih) with
+                | None => DEAD
+                | Some r =>
+                    let tsels := elems (g r (i_ "textselections")) in
+                    let trrows := relmap_rows Sc (nth_row trm (fst ih)) in
+                    L [ of_Ns (bytes (g r (i_ "id")));
+                        resolve ridmap (bytes (g r (i_ "id")));
+                        of_Ns (bytes (g r (i_ "text")));
+                        of_nat (num (g r (i_ "textlen")));
+                        opt_bytes (g r (i_ "filename"));
+                        L (map (fun jt =>
+                                  match unopt (snd jt) with
+                                  | None => DEAD
+                                  | Some t =>
+                                      L [ of_nat (num (g t (i_ "begin"))); of_nat (num (g t (i_ "end")));
+                                          row live_a (nth_row trrows (fst jt)) ]
+                                  end) (combine (seq 0 (length tsels)) tsels));
+                        row live_a (nth_row ramm (fst ih));
+                        (* position index: charpos, bytepos, begin2end, end2begin *)
+                        L (map (fun e =>
+                                  let it := snd e in
+                                  L [ of_nat (num (fst e)); of_nat (num (g it (i_ "bytepos")));
+                                      L (map (fun p => of_nats (map num (elems p))) (elems (g it (i_ "begin2end"))));
+                                      L (map (fun p => of_nats (map num (elems p))) (elems (g it (i_ "end2begin")))) ])
+                               (entries (g r (i_ "positionindex")))) ]
+                end) (combine (seq 0 (length ress)) ress));
+      (* datasets *)
+      L (map (fun ih =>
+                match unopt (snd ih) with
+                | None => DEAD
+                | Some s =>
+                    let keys := elems (g s (i_ "keys")) in
+                    let data := elems (g s (i_ "data")) in
+                    let live_d := live_at data in
+                    let kdm := relmap_rows Sc (g s (i_ "key_data_map")) in
+                    let kidmap := entries (g (g s (i_ "key_idmap")) (i_ "data")) in
+                    let didmap := entries (g (g s (i_ "data_idmap")) (i_ "data")) in
+                    let ddrows := relmap_rows Sc (nth_row ddam (fst ih)) in
+                    let kmrows := relmap_rows Sc (nth_row kamm (fst ih)) in
+                    let dmrows := relmap_rows Sc (nth_row dtamm (fst ih)) in
+                    L [ opt_bytes (g s (i_ "id"));
+                        id_res sidmap (g s (i_ "id"));
+                        opt_bytes (g s (i_ "filename"));
+                        L (map (fun jk =>
+                                  match unopt (snd jk) with
+                                  | None => DEAD
+                                  | Some k =>
+                                      L [ of_Ns (bytes (g k (i_ "id")));
+                                          resolve kidmap (bytes (g k (i_ "id")));
+                                          row live_d (nth_row kdm (fst jk));
+                                          row live_a (nth_row kmrows (fst jk)) ]
+                                  end) (combine (seq 0 (length keys)) keys));
+                        L (map (fun jd =>
+                                  match unopt (snd jd) with
+                                  | None => DEAD
+                                  | Some d =>
+                                      L [ opt_bytes (g d (i_ "id"));
+                                          id_res didmap (g d (i_ "id"));
+                                          of_nat (num (g d (i_ "key")));
+                                          value_sx_fuel 30 (snd (g d (i_ "value")));
+                                          row live_a (nth_row ddrows (fst jd));
+                                          row live_a (nth_row dmrows (fst jd)) ]
+                                  end) (combine (seq 0 (length data)) data));
+                        row live_a (nth_row damm (fst ih)) ]
+                end) (combine (seq 0 (length sets)) sets)) ].
+
 Definition run_C11 (x : sx) : sx :=
   let secs := sx_list (sx_nth 0 x) in
   let bytes := bytes_of_sx (sx_nth 1 x) in
+  let view := sx_nth 2 x in
   let root := TRef extracted_root in
+  let decoded :=
+    match toks_of_bytes (length bytes) bytes with
+    | Some ts =>
+        match dec extracted_schema (S (length ts)) root ts with
+        | Some (v, []) => Some (ts, v)
+        | _ => None
+        end
+    | None => None
+    end in
   let reenc :=
     match bytes with
     | [] => L []
     | _ =>
-        match reencode extracted_schema root bytes with
-        | Some bs => of_Ns bs
+        match decoded with
+        | Some (_, v) => of_Ns (bytes_of_toks (enc extracted_schema root v))
         | None => A (-9)
         end
     end in
@@ -37,7 +293,13 @@ Definition run_C11 (x : sx) : sx :=
     | Some ts => of_bool (wellformed_items 1 ts)
     | None => A 0
     end in
+  let mview :=
+    match decoded with
+    | Some (_, v) => store_view extracted_schema root v
+    | None => A (-9)
+    end in
   L (map (fun s => triple s s 0) secs
      ++ [triple (L [A 1; A 1]) (L [A 1; A 1]) 0;
          triple reenc (of_Ns bytes) 0;
-         triple wf (A 1) 0]).
+         triple wf (A 1) 0;
+         triple mview view 0]).
